@@ -7,6 +7,7 @@ import (
 	"fmt"
 	"io"
 	"net/http"
+	"sort"
 	"strings"
 	"time"
 
@@ -50,7 +51,14 @@ type ClientPlan struct {
 	SessionGroup int
 }
 
+// InfoResp: an informational (1xx) response seen before the final one.
+type InfoResp struct {
+	Status int
+	Header [][2]string
+}
+
 type RespRecord struct {
+	Info    []InfoResp
 	Tag     string
 	Status  int
 	Proto   string
@@ -68,6 +76,7 @@ type RecvFrame struct {
 }
 
 type H2Stream struct {
+	Info     []InfoResp // informational (1xx) header blocks before the final response
 	ID       uint32
 	Status   string
 	Header   [][2]string
@@ -481,14 +490,32 @@ func (c *Client) h1recv(s *Step) error {
 	if m == "" {
 		m = "GET"
 	}
-	resp, err := http.ReadResponse(c.br, &http.Request{Method: m})
-	if err != nil {
-		c.recordResp(&RespRecord{Tag: s.Tag, Err: "read: " + err.Error()})
-		return err
+	var info []InfoResp
+	var resp *http.Response
+	for {
+		var err error
+		resp, err = http.ReadResponse(c.br, &http.Request{Method: m})
+		if err != nil {
+			c.recordResp(&RespRecord{Tag: s.Tag, Err: "read: " + err.Error(), Info: info})
+			return err
+		}
+		if resp.StatusCode >= 100 && resp.StatusCode < 200 && resp.StatusCode != 101 {
+			// informational: no body; the final response follows
+			var hs [][2]string
+			for k, vv := range resp.Header {
+				for _, v := range vv {
+					hs = append(hs, [2]string{strings.ToLower(k), v})
+				}
+			}
+			sort.Slice(hs, func(i, j int) bool { return hs[i][0]+"\x00"+hs[i][1] < hs[j][0]+"\x00"+hs[j][1] })
+			info = append(info, InfoResp{Status: resp.StatusCode, Header: hs})
+			continue
+		}
+		break
 	}
 	body, berr := io.ReadAll(resp.Body)
 	resp.Body.Close()
-	r := &RespRecord{Tag: s.Tag, Status: resp.StatusCode, Proto: resp.Proto, Header: resp.Header, Body: body, Trailer: resp.Trailer}
+	r := &RespRecord{Tag: s.Tag, Status: resp.StatusCode, Proto: resp.Proto, Header: resp.Header, Body: body, Trailer: resp.Trailer, Info: info}
 	if berr != nil {
 		r.Err = "body: " + berr.Error()
 	}
@@ -618,6 +645,11 @@ func (c *Client) finishHeaders() {
 		}
 	}
 	if status != "" && (s.Status == "" || strings.HasPrefix(s.Status, "1")) {
+		if strings.HasPrefix(status, "1") {
+			n := 0
+			fmt.Sscanf(status, "%d", &n)
+			s.Info = append(s.Info, InfoResp{Status: n, Header: plain})
+		}
 		s.Status = status
 		s.Header = plain
 	} else {
